@@ -19,7 +19,7 @@
      - np.nansum(axis=(2, 3)) of a 4-d array: NaN counts for 0, an all-NaN slice sums to 0;
      - boolean-mask assignment a[m] = v / a[m] = b[m] / a[m] |= c, np.where(c) as an index.
 
-   Definitions only (lemmas: Proofs/NpArrP.v). *)
+   Definitions only (lemmas: Proofs/NpNdP.v). *)
 From Coq Require Import ZArith QArith List Bool.
 From Pandora Require Import Lib.Arr.
 Import ListNotations.
